@@ -108,3 +108,64 @@ func VerifC01Relay() {
 // reduced variety per request (GET/POST, Content-Length request bodies, origin
 // framing by Content-Length or chunking).
 func VerifC01Sequence() { VerifC01Relay() }
+
+// VerifC01CloseDelimited: the origin delimits the first response's body by
+// closing its connection (HTTP/1.0 or HTTP/1.1 status line, no Content-Length,
+// not chunked) and a second request follows on the same client connection,
+// pipelined or not. However the proxy re-frames that body, the client must be
+// able to tell where it ends: the first response carries exactly the origin's
+// bytes and, if the proxy keeps the connection, the second exchange is served
+// one-to-one after it.
+func VerifC01CloseDelimited() {
+	methods := []string{"GET", "POST", "HEAD"}
+	r1 := reqSpec{method: methods[vf.Choice("method", len(methods))], path: "/a?q=1", hval: "h1"}
+	if r1.method == "POST" {
+		r1.body = vf.Bytes("req-body", vf.Choice("req-body-len", 2))
+	}
+	r1.close = vf.Choice("req-close", 2) == 1
+	r2 := reqSpec{method: "GET", path: "/b?q=2", hval: "h2"}
+	s1 := resSpec{status: 200, framing: 2, hval: "x", http10: vf.Choice("origin-http10", 2) == 1}
+	s1.body = vf.Bytes("res-body", vf.Choice("res-body-len", vf.Param("bodylens")))
+	s2 := resSpec{status: 200, hval: "y", body: []byte("second")}
+	var segs [][]byte
+	if vf.Choice("pipelined", 2) == 1 {
+		segs = [][]byte{append(r1.wire(), r2.wire()...)}
+	} else {
+		segs = [][]byte{r1.wire(), r2.wire()}
+	}
+	conn := newClientConn("client", true, segs...)
+	o := &origin{}
+	o.answer = func(i int, req *http.Request) (*http.Response, error) {
+		if i == 0 {
+			return rawResponse(s1.wire(), req)
+		}
+		return rawResponse(s2.wire(), req)
+	}
+	p := NewProxy()
+	p.SetRoundTripper(o)
+	serveConn(p, conn)
+
+	got := clientView(conn.out.Bytes(), []string{r1.method, "GET"})
+	vf.Assert(len(got) >= 1, "client-receives-the-first-response")
+	if len(got) == 0 {
+		return
+	}
+	want := s1.body
+	if r1.method == "HEAD" {
+		want = nil
+	}
+	vf.Assert(got[0].ok && got[0].status == 200, "client-response-complete")
+	vf.Assert(bytes.Equal(got[0].body, want), "client-sees-identical-body")
+	vf.Assert(len(o.seen) == len(got), "one-response-per-request-forwarded")
+	if len(got) == 2 {
+		// the proxy kept the connection: then the second exchange is intact too
+		vf.Assert(!r1.close, "connection-kept-although-the-client-asked-to-close")
+		vf.Assert(got[1].ok && got[1].status == 200 && string(got[1].body) == "second" && len(got[1].hval) == 1 && got[1].hval[0] == "y", "second-response-correct-and-one-to-one")
+		vf.Reach("kept")
+	} else {
+		vf.Assert(!bytes.Contains(conn.out.Bytes(), []byte("second")), "no-bytes-of-a-later-response-after-a-close-delimited-one")
+		vf.Reach("closed")
+	}
+	vf.Assert(conn.closed >= 1, "connection-closed-when-the-loop-ends")
+	vf.Reach("done")
+}
